@@ -84,6 +84,16 @@ int main(int argc, char** argv)
                 ctx.each([&] { return chk.describe(D, av, {}); },
                          [&](mc::Report& rep) { chk.run_case(D, av, {}, rep, idx); });
             });
+        // second parse on one parser object after a first parse that collected positionals and then failed or succeeded
+        std::vector<std::vector<std::string>> firsts = { { "p", "q", "r", "s" }, { "--", "p", "q", "r", "s" }, { "p", "--zz" },
+                                                         { "p" }, { "--", "-" }, { "q", "--opt" } };
+        for (auto& D : decls)
+            for (auto& f : firsts)
+                for_all_vectors(alpha, n - 2, ctx, [&](const std::vector<std::string>& av) {
+                    long idx = ctx.next;
+                    ctx.each([&] { return chk.describe(D, av, {}); },
+                             [&](mc::Report& rep) { chk.run_second(D, f, {}, av, {}, rep, idx); });
+                });
     };
     auto rep = sh.run();
     rep.counters["bound_argv_len"] = n;
